@@ -8,6 +8,9 @@ TARGETS = ['clastic.application.Application.add', 'clastic.route.BoundRoute.__in
            'clastic.application.SubApplication.bind_all']
 
 CANARIES = [
+    {'name': 'rebinding-extends-the-source-list', 'file': 'clastic/route.py',
+     'old': "        self.bound_apps = getattr(route, 'bound_apps', []) + [app]",
+     'new': "        self.bound_apps = getattr(route, 'bound_apps', [])\n        self.bound_apps.append(app)"},
     {'name': 'add-inserts-at-fixed-index', 'file': 'clastic/application.py',
      'old': "            self.routes.insert(index, br)\n            index += 1\n",
      'new': "            self.routes.insert(index, br)\n"},
